@@ -18,6 +18,14 @@ POPULATION = ["ParallelTemperingOptimizer", "ParticleSwarmOptimizer", "SpiralOpt
 SMBO = ["BayesianOptimizer", "TreeStructuredParzenEstimators", "ForestOptimizer", "LipschitzOptimizer"]
 
 
+def rotate(names, i, quick):
+    """the optimizer of case i: the given names in rotation; in the quick tier (whose rotation holds the fast optimizers only) every 23rd
+    case is one of the model-based optimizers, so that no check runs without them"""
+    if quick and i % 23 == 22:
+        return SLOW[(i // 23) % len(SLOW)]
+    return names[i % len(names)]
+
+
 def opt_class(name):
     import gradient_free_optimizers as gfo
     return getattr(gfo, name)
